@@ -159,6 +159,7 @@ func runC18(r *Report) {
 	// the global defaults of the switches come from the command line: nothing may freeze them at package initialisation
 	c08FlagsAtInit(r, "R4")
 	c18CodecAddsNothing(r, "R1")
+	c18ProxyFailsClosed(r, "R1")
 	_ = p
 }
 
@@ -1119,4 +1120,139 @@ func c18CodecAddsNothing(r *Report, rule string) {
 		})
 	}
 	r.Sentinel(rule+".codec-identity", n, 4)
+}
+
+// c18ProxyFailsClosed: a torrent with a proxy reaches HTTP trackers and web seeds through httpclient.Get(network,
+// proxy). The transport's Proxy function must never answer "no proxy, no error" for a non-empty proxy string — a
+// proxy that cannot be parsed has to fail the request, not send it directly from the client's own address. The
+// function stored in Transport.Proxy is therefore: nil only where the proxy string is empty; a literal whose returns
+// hand on url.Parse's pair unchanged (URL and error together) or (nil, nil) only for the empty string; or
+// http.ProxyURL(u) for a u that url.Parse returned with a nil error (ProxyURL(nil) means "direct").
+func c18ProxyFailsClosed(r *Report, rule string) {
+	p := r.P
+	n := 0
+	isParse := func(v ssa.Value) (*ssa.Call, int) {
+		ex, ok := v.(*ssa.Extract)
+		if !ok {
+			return nil, -1
+		}
+		c, ok := ex.Tuple.(*ssa.Call)
+		if !ok || !isStdCall(c, "net/url", "", "Parse") {
+			return nil, -1
+		}
+		return c, ex.Index
+	}
+	emptyGuard := func(gs []Guard) bool {
+		for _, g := range gs {
+			op, x, y, ok := cmpFact(g)
+			if !ok || op != token.EQL {
+				continue
+			}
+			if s, isS := constString(y); isS && s == "" && isStringKind(x.Type()) {
+				return true
+			}
+			if s, isS := constString(x); isS && s == "" && isStringKind(y.Type()) {
+				return true
+			}
+		}
+		return false
+	}
+	for _, f := range p.SrcFuncs() {
+		if !strings.HasPrefix(funcPkgPath(f), modPath) {
+			continue
+		}
+		allInstrs(f, func(in ssa.Instruction) {
+			st, ok := in.(*ssa.Store)
+			if !ok {
+				return
+			}
+			fa, ok := st.Addr.(*ssa.FieldAddr)
+			if !ok || fieldVar(fa) == nil || fieldVar(fa).Name() != "Proxy" || !typeIs(derefType(fa.X.Type()), "net/http", "Transport") {
+				return
+			}
+			n++
+			r.Fn(f)
+			why := ""
+			var judge func(v ssa.Value, gs []Guard, d int)
+			judge = func(v ssa.Value, gs []Guard, d int) {
+				if why != "" || d > 4 {
+					return
+				}
+				switch x := v.(type) {
+				case *ssa.Const:
+					if x.IsNil() && !emptyGuard(gs) {
+						why = "no proxy function is installed on a path on which the proxy string may be non-empty"
+					}
+				case *ssa.Phi:
+					for i, e := range x.Edges {
+						pb := x.Block().Preds[i]
+						judge(e, append(append([]Guard{}, guardsOf(pb)...), expandGuards(edgeGuard(pb, x.Block()))...), d+1)
+					}
+				case *ssa.MakeClosure:
+					fn, _ := x.Fn.(*ssa.Function)
+					if fn == nil {
+						why = "the proxy function cannot be resolved"
+						return
+					}
+					r.Fn(fn)
+					ne := newNilEnv(p)
+					for _, ret := range returnsOf(fn) {
+						res := retResults(ret)
+						if len(res) != 2 {
+							why = "unexpected signature"
+							return
+						}
+						c0, i0 := isParse(res[0])
+						c1, i1 := isParse(res[1])
+						switch {
+						case c0 != nil && c0 == c1 && i0 == 0 && i1 == 1:
+						case ne.At(res[1], ret.Block()) == NonNil:
+						case isNilConst(res[0]) && isNilConst(res[1]) && emptyGuard(guardsOf(ret.Block())):
+						default:
+							why = fmt.Sprintf("the proxy function can answer (%s, %s) at %s: not url.Parse's pair, not an error, and not the empty-string case", exprStr(res[0]), exprStr(res[1]), p.pos(ret.Pos()))
+						}
+					}
+				case *ssa.Call:
+					// proxyFunc(proxy): a function of the module that builds the proxy function — judged by what it returns
+					if h := x.Call.StaticCallee(); h != nil && h.Blocks != nil && !x.Call.IsInvoke() && strings.HasPrefix(funcPkgPath(h), modPath) {
+						r.Fn(h)
+						for _, ret := range returnsOf(h) {
+							res := retResults(ret)
+							if len(res) != 1 {
+								why = "unexpected constructor signature"
+								return
+							}
+							judge(res[0], guardsOf(ret.Block()), d+1)
+						}
+						return
+					}
+					if !isStdCall(x, "net/http", "", "ProxyURL") || len(x.Call.Args) != 1 {
+						why = "the proxy function comes from " + exprStr(x) + ", which is not judged"
+						return
+					}
+					c, idx := isParse(x.Call.Args[0])
+					if c == nil || idx != 0 {
+						why = "http.ProxyURL is given a URL that does not come straight from url.Parse"
+						return
+					}
+					errv := extractOf(c, 1)
+					okErr := false
+					for _, g := range guardsOf(x.Block()) {
+						if xv, isNil, okn := nilFact(g); okn && isNil && errv != nil && xv == ssa.Value(errv) {
+							okErr = true
+						}
+					}
+					if !okErr {
+						why = "http.ProxyURL(u) is built although url.Parse may have failed: u is then nil, and ProxyURL(nil) means that requests go out directly"
+					}
+				default:
+					why = "the proxy function (" + exprStr(v) + ") is not of a form that is judged"
+				}
+			}
+			judge(st.Val, guardsOf(st.Block()), 0)
+			r.Check(why == "", rule, fname(f)+"/Transport.Proxy-fails-closed", st.Pos(), "a non-empty proxy string always yields its proxy or an error, never a direct connection",
+				"the HTTP transport built for a proxied torrent can connect directly: "+why+" — an HTTP tracker or web seed is then contacted from the client's own address although the torrent is configured to go through a proxy")
+		})
+	}
+	r.Sentinel(rule+".transport-proxy", n, 1)
 }
